@@ -53,6 +53,12 @@ pub fn n_bfs_events() -> usize {
 
 /// letters carried by an event: one for 0..=12, two for a packed frame
 pub fn decompose(ev: usize) -> Vec<usize> {
+    if ev >= BIG_BASE {
+        let (count, filler, last) = big_of(ev);
+        let mut v = vec![filler; count];
+        v.push(last);
+        return v;
+    }
     if ev < SINGLE {
         vec![ev]
     } else {
@@ -61,7 +67,24 @@ pub fn decompose(ev: usize) -> Vec<usize> {
     }
 }
 
+/// event ids from here on: one frame packing `count` copies of a filler letter followed by a last letter
+pub const BIG_BASE: usize = 100_000;
+pub const BIG_COUNTS: [usize; 8] = [31, 32, 255, 256, 1023, 1024, 1025, 1400];
+pub const BIG_FILLERS: [usize; 3] = [7, 5, 12];
+pub const BIG_LASTS: [usize; 2] = [9, 13];
+pub fn big_event(count_i: usize, filler_i: usize, last_i: usize) -> usize {
+    BIG_BASE + (count_i * BIG_FILLERS.len() + filler_i) * BIG_LASTS.len() + last_i
+}
+fn big_of(ev: usize) -> (usize, usize, usize) {
+    let k = ev - BIG_BASE;
+    (BIG_COUNTS[k / (BIG_FILLERS.len() * BIG_LASTS.len())], BIG_FILLERS[(k / BIG_LASTS.len()) % BIG_FILLERS.len()], BIG_LASTS[k % BIG_LASTS.len()])
+}
+
 pub fn event_name(ev: usize) -> String {
+    if ev >= BIG_BASE {
+        let (count, filler, last) = big_of(ev);
+        return format!("one frame [{} x {} + {}]", count, event_name(filler), event_name(last));
+    }
     match ev {
         0..=11 => EVENTS[ev].to_string(),
         12 => "set-error-info(non-zero)".to_string(),
@@ -357,7 +380,17 @@ pub fn step(l: &mut Live, ev: usize) -> Result<Key, (String, String)> {
 }
 
 /// replay a history from a fresh client; a panic of the code under test is a violation
+/// inverse of event_name over every event id in use
+pub fn event_code(name: &str) -> Option<usize> {
+    let n_big = BIG_COUNTS.len() * BIG_FILLERS.len() * BIG_LASTS.len();
+    (0..n_bfs_events()).chain(BIG_BASE..BIG_BASE + n_big).find(|e| event_name(*e) == name)
+}
+
 pub fn run_history(h: &[u8]) -> Result<Vec<Key>, (String, String)> {
+    run_history_codes(&h.iter().map(|e| *e as usize).collect::<Vec<_>>())
+}
+
+pub fn run_history_codes(h: &[usize]) -> Result<Vec<Key>, (String, String)> {
     let _ = crate::runner::take_panic();
     match std::panic::catch_unwind(|| run_history_inner(h)) {
         Ok(r) => r,
@@ -368,13 +401,13 @@ pub fn run_history(h: &[u8]) -> Result<Vec<Key>, (String, String)> {
     }
 }
 
-fn run_history_inner(h: &[u8]) -> Result<Vec<Key>, (String, String)> {
+fn run_history_inner(h: &[usize]) -> Result<Vec<Key>, (String, String)> {
     let mut l = fresh().map_err(|e| ("machinery".to_string(), e))?;
     let mut keys = vec![];
     for (i, ev) in h.iter().enumerate() {
-        match step(&mut l, *ev as usize) {
+        match step(&mut l, *ev) {
             Ok(k) => keys.push(k),
-            Err((sig, d)) => return Err((sig, format!("step {} of history {:?}: {}", i, h.iter().map(|e| event_name(*e as usize)).collect::<Vec<_>>(), d))),
+            Err((sig, d)) => return Err((sig, format!("step {} of history {:?}: {}", i, h.iter().map(|e| event_name(*e)).collect::<Vec<_>>(), d))),
         }
     }
     Ok(keys)
@@ -526,7 +559,41 @@ impl C12Histories {
             }
             v.push((p, if cycles == 40 { 2 } else { 1 }));
         }
+        // 300 cycles (anything counted per re-activation in 8 bits wraps or saturates)
+        {
+            let mut p: Vec<u8> = vec![];
+            for k in 0..300 {
+                p.extend(if k % 2 == 0 { ACT_A.iter() } else { ACT_B.iter() });
+                if k + 1 < 300 {
+                    p.push(9);
+                }
+            }
+            v.push((p, 1));
+        }
+        // 40 cycles whose finalizations are interleaved with PDUs the client has to skip (a Set Error Info, an unknown data
+        // PDU, another control PDU): 120 skipped PDUs over the life of the connection
+        {
+            let mut p: Vec<u8> = vec![];
+            for k in 0..40 {
+                let act = if k % 2 == 0 { ACT_A } else { ACT_B };
+                p.extend([act[0], 7, act[1], 8, act[2], 5, act[3], act[4]]);
+                if k + 1 < 40 {
+                    p.push(9);
+                }
+            }
+            v.push((p, 1));
+        }
         v
+    }
+    /// frames packing many PDUs in front of a deactivate-all, received by an active client (after one activation / after
+    /// a re-activation)
+    fn n_big() -> u64 {
+        (2 * BIG_COUNTS.len() * BIG_FILLERS.len() * BIG_LASTS.len()) as u64
+    }
+    fn big_case(i: u64) -> (Vec<u8>, usize) {
+        let per = (BIG_COUNTS.len() * BIG_FILLERS.len() * BIG_LASTS.len()) as u64;
+        let prefix: Vec<u8> = if i / per == 0 { ACT_A.to_vec() } else { ACT_A.iter().chain([9u8].iter()).chain(ACT_B.iter()).chain([9u8].iter()).chain(ACT_A.iter()).copied().collect() };
+        (prefix, BIG_BASE + (i % per) as usize)
     }
     fn history(&self, idx: u64) -> Vec<u8> {
         let mut i = idx;
@@ -570,19 +637,53 @@ impl Prop for C12Histories {
         Ok(())
     }
     fn n_cases(&self) -> u64 {
-        self.blocks.iter().map(|(_, d)| block_size(*d)).sum()
+        self.blocks.iter().map(|(_, d)| block_size(*d)).sum::<u64>() + Self::n_big()
     }
     fn describe(&self, idx: u64) -> Value {
+        let plain: u64 = self.blocks.iter().map(|(_, d)| block_size(*d)).sum();
+        if idx >= plain {
+            let (prefix, ev) = Self::big_case(idx - plain);
+            return json!({"idx": idx, "history": prefix.iter().map(|e| EVENTS[*e as usize].to_string()).chain([event_name(ev)]).chain(ACT_B.iter().map(|e| EVENTS[*e as usize].to_string())).collect::<Vec<_>>()});
+        }
         let h = self.history(idx);
         json!({"idx": idx, "history": h.iter().map(|e| EVENTS[*e as usize]).collect::<Vec<_>>()})
     }
     fn rule(&self) -> String {
-        "every history of server PDUs of length <= depth over the 12-letter alphabet, replayed on a fresh real client with four input attempts (a click, a pointer move, a key press, a key release; each through write and try_write) after every step, from three starting points: the fresh client (depth 5, 7 in thorough), a client that completed an activation (depth 4 / 5), and a client that completed an activation, was deactivated and completed a second activation with another share id (depth 3 / 5); and clients that went through 3, 8, 16, 33, 40 or 70 activation / deactivation cycles (depth 1; 2 after 40 cycles); the prefixes are executed and checked like any other step; non-trivial: histories in which the input window opens at least once".into()
+        "every history of server PDUs of length <= depth over the 12-letter alphabet, replayed on a fresh real client with four input attempts (a click, a pointer move, a key press, a key release; each through write and try_write) after every step, from three starting points: the fresh client (depth 5, 7 in thorough), a client that completed an activation (depth 4 / 5), and a client that completed an activation, was deactivated and completed a second activation with another share id (depth 3 / 5); and clients that went through 3, 8, 16, 33, 40, 70 or 300 activation / deactivation cycles (depth 1; 2 after 40 cycles), or through 40 cycles whose finalizations are interleaved with three PDUs to be skipped each; an active client (first activation / third) receiving ONE frame that packs 31, 32, 255, 256, 1023, 1024, 1025 or 1400 Set Error Info (code 0 or not) / other control PDUs in front of a deactivate-all (naming the share or another id), followed by a complete activation; the prefixes are executed and checked like any other step; non-trivial: histories in which the input window opens at least once".into()
     }
     fn assumptions(&self) -> Vec<String> {
         vec![]
     }
     fn run_case(&mut self, idx: u64) -> Outcome {
+        let plain: u64 = self.blocks.iter().map(|(_, d)| block_size(*d)).sum();
+        if idx >= plain {
+            let (prefix, ev) = Self::big_case(idx - plain);
+            let _ = crate::runner::take_panic();
+            if decompose(ev).iter().map(|l| event_inner(*l, SHARE_A).len()).sum::<usize>() > 0x7fff {
+                return Outcome::pass("packed:does-not-fit-one-send-data-indication", false);
+            }
+            let r = std::panic::catch_unwind(|| -> Result<Key, (String, String)> {
+                let mut l = fresh().map_err(|e| ("machinery".to_string(), e))?;
+                for e in &prefix {
+                    step(&mut l, *e as usize).map_err(|(s, d)| (s, format!("prefix: {}", d)))?;
+                }
+                step(&mut l, ev).map_err(|(s, d)| (s, format!("after {:?}: {}", prefix, d)))?;
+                // the connection goes on: a complete activation with the other share id must work as usual
+                let mut k = None;
+                for e in ACT_B {
+                    k = Some(step(&mut l, e as usize).map_err(|(s, d)| (s, format!("activation after {}: {}", event_name(ev), d)))?);
+                }
+                Ok(k.unwrap())
+            });
+            return match r {
+                Ok(Ok(k)) => Outcome::pass(format!("packed:key:{}", k.impl_state), true),
+                Ok(Err((sig, d))) => Outcome::fail("violation", sig, d),
+                Err(_) => {
+                    let p = crate::runner::take_panic().unwrap_or_else(|| "? :: panic".into());
+                    Outcome::fail("violation", format!("panic@{}", crate::runner::panic_sig(&p)), format!("{}: {}", event_name(ev), p))
+                }
+            };
+        }
         let h = self.history(idx);
         match run_history(&h) {
             Ok(keys) => {
